@@ -19,6 +19,7 @@ REGISTRY = {
     'format':   lambda repo, sd, canary=False: fmtunit.build(repo, sd, canary=canary),
     'trie':     lambda repo, sd, canary=False: dfa.build_trie(repo, sd, canary=canary),
     'wasm':     lambda repo, sd, canary=False: bindings.build_wasm(repo, sd, canary=canary),
+    'python':   lambda repo, sd, canary=False: bindings.build_python(repo, sd, canary=canary),
     'cli':      lambda repo, sd, canary=False: bindings.build_cli(repo, sd, canary=canary),
 }
 # units whose obligations carry a property (an obligation counts for a property only if its clause is tagged with it)
@@ -36,6 +37,7 @@ PROP_UNITS = {
     'C11': ['escape', 'builder', 'format'],
     'C12': ['cli', 'gates'],
     'C13': ['rep', 'builder', 'render', 'trie'],
+    'C14': ['python'],
     'C15': ['render'],
     'C16': ['expr', 'elim', 'regexp', 'dfa', 'dfa_kf', 'trie', 'render', 'format'],
     'C17': ['wasm'],
